@@ -205,7 +205,8 @@ def rule_gj(chk):
                detail_ok='j over [%s, n+nb)' % lo2)
     if isinstance(holder, ast.If):
         tst = U(holder.test).replace(' ', '')
-        okg = tst in ('%s!=%s' % (big, x) for x in (pv, 'col')) or tst in ('%s!=%s' % (x, big) for x in (pv, 'col'))
+        piv = [pv] + [k_ for k_, v_ in env.items() if v_ == Poly.var(pv)]       # the pivot index, under the loop variable or a copy of it
+        okg = tst in ('%s!=%s' % (big, x) for x in piv) or tst in ('%s!=%s' % (x, big) for x in piv)
         chk.decide(okg, 'gj-pivot-drives-row-exchange', 'exchange-guard', node=holder, file=LA, func='gj_solve',
                    detail_bad='row exchange is skipped under condition %s' % U(holder.test), detail_ok='skipped only when no better row was found')
     # --- elimination row operation over the full augmented width
@@ -262,9 +263,27 @@ def rule_gj(chk):
             # strip the row term nt*<row>
             ends = [a_co * lo4 + rest, a_co * (hi4 - Poly.const(1)) + rest]
             cmin, cmax = (ends[0], ends[1]) if a_co.const_value() > 0 else (ends[1], ends[0])
+            # the pivot row of this back-substitution sweep: the variable R whose diagonal entry m[nt*R + R] something is divided by
+            piv_row = None
+            dens = []
+            for d_ in [d_ for d_ in ast.walk(top) if isinstance(d_, ast.BinOp) and isinstance(d_.op, ast.Div)]:
+                den_ = d_.right
+                if isinstance(den_, ast.Name):          # piv = m[nt*rb + rb]
+                    den_ = ([a_.value for a_ in ast.walk(top) if isinstance(a_, ast.Assign) and U(a_.targets[0]) == den_.id] or [den_])[-1]
+                if isinstance(den_, ast.Call) and M.call_name(den_) == 'float' and den_.args:
+                    den_ = den_.args[0]
+                if isinstance(den_, ast.Subscript) and U(den_.value) == 'm':
+                    dens.append(den_)
+            for den_ in dens:
+                di = P(den_.slice)
+                for r_ in sorted(di.atoms() - set(['n', 'nb'])) if di is not None else []:
+                    if di == width * Poly.var(r_) + Poly.var(r_):
+                        piv_row = r_
+            if piv_row is None:
+                continue
             rowterm = None
-            for rv in ('rb', 'kup', 'rr', 'i'):
-                if (cmin - width * Poly.var(rv)).atoms() <= set(['n', 'nb', 'rb']) and (cmax - width * Poly.var(rv)).atoms() <= set(['n', 'nb', 'rb']):
+            for rv in sorted((cmin.atoms() | cmax.atoms()) - set(['n', 'nb'])):
+                if (cmin - width * Poly.var(rv)).atoms() <= set(['n', 'nb', piv_row]) and (cmax - width * Poly.var(rv)).atoms() <= set(['n', 'nb', piv_row]):
                     rowterm = rv
                     break
             if rowterm is None:
@@ -272,7 +291,7 @@ def rule_gj(chk):
             cmin, cmax = cmin - width * Poly.var(rowterm), cmax - width * Poly.var(rowterm)
             col_loops += 1
             ok_hi = cmax == width - Poly.const(1)
-            ok_lo = cmin in (Poly.var('rb'), Poly.var('n'), Poly.const(0)) or (cmin - Poly.var('rb')).is_zero()
+            ok_lo = cmin in (Poly.var(piv_row), Poly.var('n'), Poly.const(0)) or (cmin - Poly.var(piv_row)).is_zero()
             chk.decide(ok_hi and ok_lo, 'gj-back-substitution-covers-rhs', 'columns@%d' % lp.lineno, node=lp, file=LA, func='gj_solve',
                        detail_bad='this back-substitution update touches columns %s .. %s of the row; the right-hand sides live in columns n .. n+nb-1, so the range must end at n+nb-1 and '
                                   'start at or before n (pivot column rb or n): with more right-hand sides than unknowns some columns are neither scaled nor back-substituted' % (cmin, cmax),
